@@ -277,7 +277,7 @@ Proof.
     rewrite Hr, orb_true_r; cbv iota; unfold b_write_buffered;
     match goal with |- context [b_wrote ?Y && _] =>
       replace (b_wrote Y) with false by (unfold apply_sets; destruct x; reflexivity) end;
-    cbn [andb]; destruct ((ret <? 400) && negb err); reflexivity.
+    cbn [andb]; destruct (ret <? 400); reflexivity.
 Qed.
 Lemma inner_pan m ops rest ret err x :
   forallb set_ok ops = true ->
@@ -732,7 +732,7 @@ Proof.
       { destruct I1 as (_ & _ & _ & [Q|[_ Q]] & _); [|exact Q].
         unfold b_active in Q. rewrite My1, My0 in Q. discriminate Q. }
       rewrite St. cbn [orb]. rewrite (b_write_buffered_stream _ St).
-      exists y1. split; [destruct ((300 <=? ret) && (ret <? 400) && negb err); reflexivity|]. split; [exact I1|].
+      exists y1. split; [destruct (ret <? 400); reflexivity|]. split; [exact I1|].
       rewrite Gy1, Gy0. destruct act, hd; reflexivity.
     - (* extension does not match *)
       rewrite (run_sets _ _ _ Hs). rewrite apply_sets_templates by discriminate.
@@ -750,7 +750,7 @@ Proof.
       { destruct I1 as (_ & _ & _ & [Q|[_ Q]] & _); [|exact Q].
         unfold b_active in Q. rewrite My1, My0 in Q. discriminate Q. }
       rewrite St. cbn [orb]. rewrite (b_write_buffered_stream _ St).
-      exists y1. split; [destruct ((300 <=? ret) && (ret <? 400) && negb err); reflexivity|]. split; [exact I1|].
+      exists y1. split; [destruct (ret <? 400); reflexivity|]. split; [exact I1|].
       rewrite Gy1, Gy0. destruct act, hd; reflexivity. }
   destruct Hscript as (y & Hy & Iy & Gy).
   pose proof (errors_pass et (eff_path c path) (eff_errors c) _ _ ret err y Hy R1 Herr) as He.
@@ -809,22 +809,24 @@ Qed.
 
 Lemma written_buffered et c path ae sets s bs ret err :
   forallb set_ok sets = true -> status_rule c path = None ->
-  valid_code s = true -> bodyless s = false -> ret < 400 -> err = false ->
+  valid_code s = true -> bodyless s = false -> ret < 400 ->
+  (err = false \/ eff_errors c <> EDebug) ->
   should_buffer (tmode_of c path) (hs_fun sets []) = true ->
-  (ret < 300 -> contains (concat bs) TPL_OPEN = false) ->
+  (ret < 300 -> err = false -> contains (concat bs) TPL_OPEN = false) ->
   let x := serve et c path ae (sets ++ OWh s :: map OWr bs) ret err in
   cm x = Some s /\ sup x = 0%nat /\ view x = (false, concat bs).
 Proof.
-  intros Hs Hr Hv Hb Hret Herr Hsb Htpl. subst err.
+  intros Hs Hr Hv Hb Hret Herr Hsb Htpl.
   assert (R4 : (400 <=? ret) = false) by lia.
+  assert (R5 : (ret <? 400) = true) by lia.
   unfold serve, chain. rewrite Hr. unfold status_mw.
   set (act := c_gzip c && ae). set (hd := c_header c). set (m := tmode_of c path) in *.
   pose proof (fresh_entry act hd) as F0. pose proof (entry_gz act hd) as G0.
   assert (Hm : m <> TOff) by (intro Q; rewrite Q in Hsb; discriminate Hsb).
-  assert (Hscript : exists r y, templates_mw m (probe (sets ++ OWh s :: map OWr bs) ret false) (entry act hd) = HRet r false y
-                              /\ (400 <=? r) = false /\ answered s (concat bs) act y).
+  assert (Hscript : exists r e y, templates_mw m (probe (sets ++ OWh s :: map OWr bs) ret err) (entry act hd) = HRet r e y
+                              /\ (400 <=? r) = false /\ (e = false \/ eff_errors c <> EDebug) /\ answered s (concat bs) act y).
   { rewrite (templates_mw_on _ _ _ Hm). unfold templates_on.
-    rewrite (probe_buffered m sets s bs ret false (entry act hd) Hm Hs Hsb).
+    rewrite (probe_buffered m sets s bs ret err (entry act hd) Hm Hs Hsb).
     set (Y := set_b _ m true false s (hs_fun sets []) (concat bs)).
     assert (FY : fresh Y) by (unfold Y; apply fresh_set_b; exact F0).
     assert (GY : gz_on Y = act) by (unfold Y; destruct act, hd; reflexivity).
@@ -834,10 +836,9 @@ Proof.
     replace (b_buf Y) with (concat bs) by reflexivity.
     replace (b_status Y) with s by reflexivity.
     replace (b_hdr Y) with (hs_fun sets []) by reflexivity.
-    cbn [orb negb]. rewrite andb_true_r, orb_false_r.
-    destruct (300 <=? ret) eqn:R3.
-    - (* a 3xx status was returned: the buffered response is passed on *)
-      assert (R5 : (ret <? 400) = true) by lia. rewrite R5. cbn [andb].
+    cbn [orb]. rewrite R5.
+    destruct ((300 <=? ret) || err) eqn:R3.
+    - (* a 3xx status or an error was returned: the buffered response is passed on *)
       unfold b_write_buffered.
       replace (b_wrote Y) with true by reflexivity. replace (b_stream Y) with false by reflexivity.
       replace (b_buf Y) with (concat bs) by reflexivity.
@@ -845,15 +846,16 @@ Proof.
       replace (b_hdr Y) with (hs_fun sets []) by reflexivity.
       cbn [andb negb].
       destruct (buffered_out Y _ s (concat bs) FY HC Hv Hb) as (z & Ez & Az).
-      rewrite Ez. exists ret, z. rewrite GY in Az. auto.
+      rewrite Ez. exists ret, err, z. rewrite GY in Az. auto.
     - (* the template is executed *)
-      rewrite (Htpl ltac:(lia)).
+      apply orb_false_iff in R3 as [R3 R6]. subst err.
+      rewrite (Htpl ltac:(lia) eq_refl).
       set (h3 := match hget _ K_CT with Some _ => _ | None => _ end).
       assert (H3 : hget h3 K_CE = None).
       { unfold h3. match goal with |- context [match ?e with _ => _ end] => destruct e end; hsimp; exact HC. }
       destruct (buffered_out Y h3 s (concat bs) FY H3 Hv Hb) as (z & Ez & Az).
-      cbv zeta. fold h3. rewrite Ez. exists 0, z. rewrite GY in Az. auto. }
-  destruct Hscript as (r & y & Hy & R & A).
-  pose proof (errors_pass et (eff_path c path) (eff_errors c) _ _ r false y Hy R (or_introl eq_refl)) as He.
-  exact (outer_passes et (c_log c) act hd _ r false y s _ He R A).
+      cbv zeta. fold h3. rewrite Ez. exists 0, false, z. rewrite GY in Az. auto. }
+  destruct Hscript as (r & e & y & Hy & R & E & A).
+  pose proof (errors_pass et (eff_path c path) (eff_errors c) _ _ r e y Hy R E) as He.
+  exact (outer_passes et (c_log c) act hd _ r e y s _ He R A).
 Qed.
